@@ -551,6 +551,14 @@ def stmt_libs():
     nshdr = ("#include <string>\n#include <vector>\nint plain(int n);\nnamespace inner { const std::string getName(); void fill(std::vector<int> &v); int *mk(int n);\n"
              "namespace deep { std::vector<double> values(); } }\n")
     out.append(("helpers used only inside namespaces", "cxx", nsy, "nshelp.hpp", nshdr))
+    # parameters written with array syntax are pointers in C
+    for lang in ("c", "cxx"):
+        hname = "arrp.h" if lang == "c" else "arrp.hpp"
+        ay = {"library": "arrp", "cxx_header": hname, "options": {"wrap_python": False, "wrap_lua": False},
+              "declarations": [{"decl": "int sum3(int arg[3])"}, {"decl": "double trace(double m[2][2])"}]}
+        if lang == "c":
+            ay["language"] = "c"
+        out.append(("parameters in array syntax (%s)" % lang, lang, ay, hname, "int sum3(int arg[3]);\ndouble trace(double m[2][2]);\n"))
     # members of an interoperable struct: every native kind, bool, char, fixed arrays (one and two extents), pointers, arrays of pointers
     recd = "struct Rec { int n; bool on; char code; double *rows[3]; float w[2][3]; long big; char name[8]; short s; int *p; unsigned int u; long long ll; size_t z; double d; bool flags[2]; };"
     for lang in ("c", "cxx"):
